@@ -502,6 +502,12 @@ def _extract_function(fn, meta):
     for k, v in cdefs.items():
         if "ndim" in v:
             arrays[k] = v["ndim"]
+    # raw pointers (cdef T* p, <T*> casts): addresses are computed by hand, the element-level access model cannot
+    # see where a load goes -- the function is declared unsupported (the replay decides it) instead of being modelled
+    # through a guess
+    for k, v in cdefs.items():
+        if "*" in str(v.get("type", "")) or k.lstrip().startswith("*"):
+            info["unsupported"].append("line %s: pointer-typed local %s %s" % (v.get("line"), v.get("type"), k))
     for loop, outer in _find_loops(fn):
         kind, ext = _loop_call(loop)
         outer_vars = [o.target.id for o in outer if isinstance(o.target, ast.Name)]
